@@ -86,7 +86,8 @@ impl CaseEngine for C05 {
          canonical dump D0 (ids, result order, properties in order, aliases, index listing in order and contents, adjacency order), \
          then a random sequence of: close+reopen as Db / DbFile / DbAny::new_file / DbAny::new_mapped, optimize_storage, shrink_to_fit, \
          backup (opened as Db, DbFile and DbMemory), copy (returned database and original), rename (+ reopen under the new name), \
-         further identical queries on original and copy; after every step the exact dump must equal D0. evaluations = maintenance \
+         and further mutating queries between the maintenance steps (D0 is then re-taken from the live database: what is written \
+         after an optimize / shrink / rename / reopen must survive the following ones); after every step the exact dump must equal D0. evaluations = maintenance \
          steps checked; distinct = distinct (step kind, database kind, previous step kind) tuples"
             .into()
     }
@@ -112,7 +113,7 @@ impl CaseEngine for C05 {
                 rep.count("histories_skipped_other_property");
                 return Ok(());
             }
-            let d0 = dump_any(&any).map_err(|e| ("dump_failed".to_string(), e))?;
+            let mut d0 = dump_any(&any).map_err(|e| ("dump_failed".to_string(), e))?;
             rep.max("max_elements", d0.elems.len() as i64);
             rep.max("max_indexes", d0.indexes.len() as i64);
             let mut rng = Rng::new(seed ^ 0xabc);
@@ -120,8 +121,9 @@ impl CaseEngine for C05 {
             let is_mem = |k: &str| k.contains("memory");
             let mut n_file = 0;
             for step in 0..steps_n {
-                let op = rng.below(9);
+                let op = rng.below(11);
                 let name;
+                let mut new_d0 = None;
                 let check = |any: &AnyDb, what: &str| -> Result<(), (String, String)> {
                     let d = dump_any(any).map_err(|e| (format!("read_failed_after:{what}"), e))?;
                     match dump::diff(&d, &d0, true) {
@@ -211,12 +213,32 @@ impl CaseEngine for C05 {
                             path = p;
                         }
                     }
+                    9 | 10 => {
+                        // the history goes on between maintenance operations: whatever is written after an optimize /
+                        // shrink / rename / reopen must survive the next ones just like the earlier content
+                        name = "more_queries".to_string();
+                        trace.push(name.clone());
+                        let r = with_db!(&mut any, db, db.transaction_mut(|t| -> Result<(), agdb::DbError> {
+                            let n = t.exec_mut(QueryBuilder::insert().nodes().count(2).values_uniform([("c05_extra", step as i64).into(), ("k0", "written between maintenance steps").into()]).query())?;
+                            let ids: Vec<agdb::DbId> = n.elements.iter().map(|e| e.id).collect();
+                            t.exec_mut(QueryBuilder::insert().edges().from(ids[0]).to(ids[1]).values_uniform([("c05_extra", step as i64).into()]).query())?;
+                            t.exec_mut(QueryBuilder::insert().values([[("c05_extra", -1_i64).into()]]).ids(ids[0]).query())?;
+                            Ok(())
+                        }));
+                        if r.is_err() {
+                            rep.count("more_queries_failed_other_property");
+                        }
+                        new_d0 = Some(dump_any(&any).map_err(|e| ("dump_failed".to_string(), e))?);
+                    }
                     _ => {
                         // read-only queries must not disturb anything either
                         name = "reads".to_string();
                         let _ = dump_any(&any);
                         check(&any, &name)?;
                     }
+                }
+                if let Some(d) = new_d0 {
+                    d0 = d;
                 }
                 rep.eval();
                 rep.count(&format!("step_{}", name.split("_as_").next().unwrap_or(&name)));
@@ -244,7 +266,7 @@ impl CaseEngine for C05 {
         let _ = std::fs::remove_dir_all(&dir);
     }
     fn finish(&self, args: &Args, rep: &mut Report) {
-        for k in ["step_reopen", "step_optimize_storage", "step_shrink_to_fit", "step_backup_opened", "step_copy", "step_rename", "step_memory_backup_and_reload"] {
+        for k in ["step_reopen", "step_optimize_storage", "step_shrink_to_fit", "step_backup_opened", "step_copy", "step_rename", "step_memory_backup_and_reload", "step_more_queries"] {
             rep.require(k, 20);
         }
         let _ = std::fs::remove_dir_all(args.str("scratch", "/verif/scratch/c05"));
@@ -281,7 +303,7 @@ impl CaseEngine for C06 {
         args.u64("n", if args.thorough() { 5000 } else { 300 }) as usize
     }
     fn case_timeout_s(&self, _args: &Args) -> u64 {
-        600
+        300
     }
     fn run_case(&self, args: &Args, case: usize, rep: &mut Report, _p: &dyn Fn(&str)) {
         let seed = derive(args.u64("seed", 1), &[tag("C06"), case as u64]);
@@ -625,9 +647,9 @@ impl CaseEngine for C12 {
             (0..250).map(|_| random_value(&mut rng)).collect()
         };
         let path = format!("{dir}/v.agdb");
-        let mut fired = std::collections::BTreeSet::new();
-        let mut viol = |rep: &mut Report, class: String, detail: String, v: &DbValue| {
-            if fired.insert(class.clone()) {
+        let fired = std::cell::RefCell::new(std::collections::BTreeSet::new());
+        let viol = |rep: &mut Report, class: String, detail: String, v: &DbValue| {
+            if fired.borrow_mut().insert(class.clone()) {
                 rep.violation(
                     &format!("C12:{class}"),
                     &detail,
@@ -708,6 +730,68 @@ impl CaseEngine for C12 {
             };
             check_all(&any, "live", rep)?;
             rep.count("read_paths_live");
+            // twins: values that differ only in the sign of zero or in the NaN sign / payload are different values
+            // (the documented comparison is total_cmp): overwriting one with the other must store the new bits, and
+            // both can be keys of one element
+            let floats: Vec<f64> = values.iter().filter_map(|v| if let DbValue::F64(f) = v { Some(f.to_f64()) } else { None }).collect();
+            let mut groups: Vec<Vec<f64>> = vec![vec![0.0, -0.0], floats.iter().copied().filter(|f| f.is_nan()).take(6).collect()];
+            if case >= 4 {
+                // random cases: pairs that differ in one low bit
+                groups = floats.iter().take(8).map(|f| vec![*f, f64::from_bits(f.to_bits() ^ 1)]).collect();
+                groups.push(vec![0.0, -0.0]);
+            }
+            // (element id, key, expected value) triples to verify live and after reopen
+            let mut expect: Vec<(i64, DbValue, DbValue)> = vec![];
+            for grp in &groups {
+                for a in grp {
+                    for b in grp {
+                        if a.to_bits() == b.to_bits() {
+                            continue;
+                        }
+                        for wrap in 0..2 {
+                            let (va, vb) = if wrap == 0 { (DbValue::from(*a), DbValue::from(*b)) } else { (DbValue::from(vec![1.5, *a]), DbValue::from(vec![1.5, *b])) };
+                            // overwrite a with b
+                            let q = MutQ::InsertNodes {
+                                count: 0,
+                                aliases: vec![],
+                                values: Vals::Multi(vec![vec![(DbValue::from("__value_slot__"), va.clone())]]),
+                            };
+                            let id = with_db!(&mut any, db, q.to_agdb().exec(db)).map_err(|e| format!("insert failed: {e:?}"))?.elements[0].id.0;
+                            with_db!(&mut any, db, db.exec_mut(QueryBuilder::insert().values([[(DbValue::from("__value_slot__"), vb.clone()).into()]]).ids(id).query()))
+                                .map_err(|e| format!("overwrite failed: {e:?}"))?;
+                            expect.push((id, DbValue::from("__value_slot__"), vb.clone()));
+                            // a and b as two keys of one element
+                            let q = MutQ::InsertNodes {
+                                count: 0,
+                                aliases: vec![],
+                                values: Vals::Multi(vec![vec![(va.clone(), DbValue::from(1_i64)), (vb.clone(), DbValue::from(2_i64))]]),
+                            };
+                            let id = with_db!(&mut any, db, q.to_agdb().exec(db)).map_err(|e| format!("insert failed: {e:?}"))?.elements[0].id.0;
+                            expect.push((id, va.clone(), DbValue::from(1_i64)));
+                            expect.push((id, vb.clone(), DbValue::from(2_i64)));
+                        }
+                    }
+                }
+            }
+            let check_twins = |any: &AnyDb, path_name: &str, rep: &mut Report, viol: &dyn Fn(&mut Report, String, String, &DbValue)| -> Result<(), String> {
+                for (id, k, v) in &expect {
+                    let r = with_db!(any, db, db.exec(QueryBuilder::select().ids(*id).query())).map_err(|e| format!("select failed: {e:?}"))?;
+                    let e = r.elements.first().ok_or("empty select")?;
+                    rep.eval();
+                    rep.count("twin_value_checks");
+                    match e.values.iter().find(|kv| bit_eq(&kv.key, k)) {
+                        Some(kv) if bit_eq(&kv.value, v) => {}
+                        other => viol(
+                            rep,
+                            format!("{}:{}:{path_name}", if *k == DbValue::from("__value_slot__") { "overwritten_value_differs" } else { "twin_key_differs" }, tname(v)),
+                            format!("[{kind}] element {id}: expected key {k:?} -> {v:?}, found {:?} among {:?}", other.map(|kv| &kv.value), e.values),
+                            v,
+                        ),
+                    }
+                }
+                Ok(())
+            };
+            check_twins(&any, "live", rep, &viol)?;
             // backup -> DbMemory::new
             let b = format!("{dir}/b.agdb");
             with_db!(&any, db, db.backup(&b)).map_err(|e| format!("backup failed: {e:?}"))?;
@@ -721,6 +805,7 @@ impl CaseEngine for C12 {
                 for k2 in ["file", "mapped"] {
                     let any = open(k2, &path).map_err(|e| format!("reopen as {k2} failed: {e:?}"))?;
                     check_all(&any, &format!("reopened_as_{k2}"), rep)?;
+                    check_twins(&any, &format!("reopened_as_{k2}"), rep, &viol)?;
                     rep.count("read_paths_reopen");
                 }
             }
@@ -740,6 +825,7 @@ impl CaseEngine for C12 {
         rep.require("read_paths_live", 8);
         rep.require("read_paths_backup", 8);
         rep.require("read_paths_reopen", 8);
+        rep.require("twin_value_checks", 200);
         let _ = std::fs::remove_dir_all(args.str("scratch", "/verif/scratch/c12"));
     }
 }
